@@ -209,4 +209,5 @@ func main() {
 	genPathFns(repo, out)
 	genExpandSites(repo, out)
 	genWithDefaults(repo, out)
+	genListFns(repo, out)
 }
